@@ -30,6 +30,19 @@ def _worker(task):
         from pyvc.core import Unsupported
         from pyvc.concretize import conc_env
 
+        if qualname.startswith("lemma:"):
+            obs = S.LEMMAS[qualname[6:]]()
+            out["fingerprint"] = "lemma"
+            out["n_obligations"] = len(obs)
+            out["used_contracts"] = []
+            for i, ob in enumerate(obs):
+                if i % nshards != shard or (only_names is not None and ob.name not in only_names):
+                    continue
+                r = discharge(ob, timeout_ms=timeout_ms, seed=seed)
+                r["function"] = qualname
+                out["results"].append(r)
+            out["seconds"] = round(time.time() - t0, 3)
+            return out
         con = S.REGISTRY[qualname]
         try:
             ex, obs = verify_function(qualname)
